@@ -243,6 +243,12 @@ func tokenBridgeDestroyUnexecutedSequenceContracts(
 	sequence uint64,
 	targetChainId vaa.ChainID,
 ) (*vaa.VAA, error) {
+	if req.EmitterChain > math.MaxUint16 {
+		return nil, errors.New("invalid emitter_chain")
+	}
+	if len(req.Sequences) > math.MaxUint16 {
+		return nil, errors.New("too many sequences")
+	}
 	v := vaa.CreateGovernanceVAA(governanceChainId, governanceEmitterAddress, timestamp, nonce, sequence, targetChainId, guardianSetIndex,
 		vaa.BodyTokenBridgeDestroyContracts{
 			EmitterChain: vaa.ChainID(req.EmitterChain),
@@ -262,6 +268,9 @@ func tokenBridgeUpdateMinimalConsistencyLevel(
 	sequence uint64,
 	targetChainId vaa.ChainID,
 ) (*vaa.VAA, error) {
+	if req.NewConsistencyLevel > math.MaxUint8 {
+		return nil, errors.New("invalid new_consistency_level")
+	}
 	v := vaa.CreateGovernanceVAA(governanceChainId, governanceEmitterAddress, timestamp, nonce, sequence, targetChainId, guardianSetIndex,
 		vaa.BodyTokenBridgeUpdateMinimalConsistencyLevel{
 			NewConsistencyLevel: uint8(req.NewConsistencyLevel),
@@ -282,6 +291,9 @@ func tokenBridgeUpdateRefundAddress(
 	address, err := hex.DecodeString(req.NewRefundAddress)
 	if err != nil {
 		return nil, errors.New("invalid refund address encoding (expected hex)")
+	}
+	if len(address) > math.MaxUint16 {
+		return nil, errors.New("refund address too long")
 	}
 	v := vaa.CreateGovernanceVAA(governanceChainId, governanceEmitterAddress, timestamp, nonce, sequence, targetChainId, guardianSetIndex,
 		vaa.BodyTokenBridgeUpdateRefundAddress{
